@@ -178,6 +178,10 @@ func isArrayType(ty types.Type) bool {
 
 func fnCoqType(k string) string {
 	switch {
+	case k == "putmap":
+		return "(entries -> entries)"
+	case k == "nat":
+		return "nat"
 	case k == "rows":
 		return "(list (list str))"
 	case k == "vrows":
@@ -236,6 +240,10 @@ func fnCoqType(k string) string {
 
 func fnZero(k string) string {
 	switch {
+	case k == "putmap":
+		return "(fun x_ : entries => x_)"
+	case k == "nat":
+		return "O"
 	case k == "bool":
 		return "false"
 	case k == "int":
@@ -268,6 +276,8 @@ type lvar struct {
 	nilUnknown bool      // ... and it was assigned the result of a call: whether it is nil is not tracked any more
 	origin  *aliasOrigin // write-back mode: where this variable's value was taken from
 	sink    *lvar        // a json.Encoder local: the writer local it writes to
+	putVar  *lvar        // cursor mode: a map variable that walks down the tree it updates: the function that rebuilds the root from it
+	idxVar  *lvar        // cursor mode: a map variable declared without a value: the position at which it was last appended to a list
 }
 
 type extern struct {
@@ -287,6 +297,7 @@ type fnTr struct {
 	curRest  []ast.Stmt // the statements that follow the one being translated, in its list
 	topEnd   func() string // what falling off the end of the function body is
 	qname    string        // the function being translated, Recv.Name for methods
+	cursor   bool          // cursor mode (cursorFuncs): see cursor.go
 	wb       bool       // write-back mode (inout.go, wb.go): in-place updates of a value tree
 	nextRebuild *rebuildSpec // consumed by the next loop(): the collection it ranges over is rebuilt
 	wbAfterCall []*lvar      // set by selfArgs: the locals that received the in-out results of the recursive call
@@ -1051,6 +1062,23 @@ func (t *fnTr) call(x *ast.CallExpr) string {
 					}
 					return "(app " + t.expr(x.Args[0]) + " " + t.expr(x.Args[1]) + ")"
 				}
+				if len(x.Args) > 2 && !x.Ellipsis.IsValid() {
+					// append(xs, a, b, ...)
+					k := strings.TrimPrefix(t.kindOfExpr(x.Args[0]), "ptr:")
+					if k != "vlist" && k != "strs" {
+						t.unsupported(x, "append form")
+					}
+					xs := t.expr(x.Args[0])
+					var els []string
+					for _, a := range x.Args[1:] {
+						if k == "vlist" {
+							els = append(els, t.boxVal(a))
+						} else {
+							els = append(els, t.expr(a))
+						}
+					}
+					return "(app " + xs + " [" + strings.Join(els, "; ") + "])"
+				}
 				if len(x.Args) != 2 || x.Ellipsis.IsValid() {
 					t.unsupported(x, "append form")
 				}
@@ -1552,6 +1580,58 @@ func (t *fnTr) calleeIsPair(fn *types.Func) bool {
 	return false
 }
 
+// calleeReturnsMade: a package function with one map result all of whose return statements return one local variable
+// that is initialised with make (so the result is never the nil map)
+func (t *fnTr) calleeReturnsMade(fn *types.Func) bool {
+	for _, f := range t.p.files {
+		for _, d := range f.Decls {
+			fd, ok := d.(*ast.FuncDecl)
+			if !ok || fd.Body == nil || t.p.info.Defs[fd.Name] != types.Object(fn) {
+				continue
+			}
+			var made types.Object
+			for _, st := range fd.Body.List {
+				if as, ok := st.(*ast.AssignStmt); ok && as.Tok == token.DEFINE && len(as.Lhs) == 1 && len(as.Rhs) == 1 {
+					if c, ok := as.Rhs[0].(*ast.CallExpr); ok {
+						if id, ok := c.Fun.(*ast.Ident); ok && id.Name == "make" {
+							if lid, ok := as.Lhs[0].(*ast.Ident); ok && made == nil {
+								made = t.p.info.Defs[lid]
+							}
+						}
+					}
+				}
+			}
+			if made == nil {
+				return false
+			}
+			okAll, nRet := true, 0
+			ast.Inspect(fd.Body, func(n ast.Node) bool {
+				switch x := n.(type) {
+				case *ast.ReturnStmt:
+					nRet++
+					if len(x.Results) != 1 {
+						okAll = false
+					} else if id, ok := x.Results[0].(*ast.Ident); !ok || t.p.info.Uses[id] != made {
+						okAll = false
+					}
+				case *ast.AssignStmt:
+					// the variable is not assigned again
+					if x.Tok == token.ASSIGN {
+						for _, l := range x.Lhs {
+							if id, ok := l.(*ast.Ident); ok && t.p.info.Uses[id] == made {
+								okAll = false
+							}
+						}
+					}
+				}
+				return true
+			})
+			return okAll && nRet > 0
+		}
+	}
+	return false
+}
+
 // calleeStoresInto: does the body of the package function fn contain a store p[k] = v into its i-th parameter?
 func (t *fnTr) calleeStoresInto(fn *types.Func, i int) bool {
 	for _, f := range t.p.files {
@@ -1718,6 +1798,16 @@ func (t *fnTr) assigned(list []ast.Stmt) []*lvar {
 			if lv.nilFlag != nil && !seen[lv.nilFlag] {
 				seen[lv.nilFlag] = true
 				out = append(out, lv.nilFlag)
+			}
+			for _, ex := range []*lvar{lv.idxVar, lv.putVar} {
+				if ex != nil && !seen[ex] {
+					seen[ex] = true
+					out = append(out, ex)
+				}
+			}
+			if lv.putVar != nil && lv.origin != nil && lv.origin.how == "root" && !seen[lv.origin.parent] {
+				seen[lv.origin.parent] = true
+				out = append(out, lv.origin.parent)
 			}
 		}
 	}
@@ -1936,6 +2026,12 @@ func (t *fnTr) assigned(list []ast.Stmt) []*lvar {
 						}
 						if lv.nilFlag != nil {
 							declared[lv.nilFlag] = true
+						}
+						if lv.idxVar != nil {
+							declared[lv.idxVar] = true
+						}
+						if lv.putVar != nil {
+							declared[lv.putVar] = true
 						}
 					}
 				}
@@ -2683,6 +2779,11 @@ func (t *fnTr) stmts(list []ast.Stmt, end func() string) string {
 					fl := t.newLocal(nil, id.Name+"_made", "bool")
 					lv.nilFlag = fl
 					out += "let " + fl.name + " : bool := false in "
+				}
+				if t.cursor && k == "vmap" {
+					ix := t.newLocal(nil, id.Name+"_idx", "nat")
+					lv.idxVar = ix
+					out += "let " + ix.name + " : nat := O in "
 				}
 			}
 		}
@@ -3616,6 +3717,10 @@ func (t *fnTr) assign(x *ast.AssignStmt, next func() string) string {
 			if k == "" || k == "nil" {
 				t.unsupported(x, "local variable of this type")
 			}
+			if st, isStar := unparen(x.Rhs[0]).(*ast.StarExpr); isStar && k == "vmap" {
+				// m := (*n) with n a *map parameter: the cursor (cursor.go)
+				return t.cursorInit(x, st, obj, l.Name, next)
+			}
 			val = t.expr(x.Rhs[0])
 			lv := t.newLocal(obj, l.Name, k)
 			if t.wb && (k == "vmap" || k == "vlist" || k == "val") {
@@ -3638,6 +3743,11 @@ func (t *fnTr) assign(x *ast.AssignStmt, next func() string) string {
 		if !ok || lv.fields != nil || lv.elemOf != nil {
 			t.unsupported(x, "assignment to "+l.Name)
 		}
+		if t.cursor && (lv.kind == "vmap" || lv.kind == "vlist") {
+			if out, done := t.cursorAssign(x, lv, next); done {
+				return out
+			}
+		}
 		flag := ""
 		switch {
 		case lv.kind == "val":
@@ -3657,6 +3767,11 @@ func (t *fnTr) assign(x *ast.AssignStmt, next func() string) string {
 				case *ast.CallExpr:
 					if f, ok := r.Fun.(*ast.Ident); ok && f.Name == "make" {
 						isMade = true
+					}
+					if f, ok := r.Fun.(*ast.Ident); ok {
+						if fn, ok := t.p.info.Uses[f].(*types.Func); ok && t.calleeReturnsMade(fn) {
+							isMade = true
+						}
 					}
 				case *ast.CompositeLit:
 					isMade = true
@@ -3760,7 +3875,26 @@ func (t *fnTr) assign(x *ast.AssignStmt, next func() string) string {
 			mark := len(t.guards)
 			k := t.expr(l.Index)
 			v := t.boxVal(x.Rhs[0])
-			return t.wrap(mark, "let "+lv.name+" := set "+k+" "+v+" "+lv.name+" in "+t.writeBackStr(lv)+"\n  "+next())
+			pre := ""
+			if t.cursor {
+				// a fresh local map / slice stored into the tree: from now on another name for that entry
+				src := unparen(x.Rhs[0])
+				if c, ok := src.(*ast.CallExpr); ok && len(c.Args) == 1 {
+					if tv, ok := t.p.info.Types[c.Fun]; ok && tv.IsType() {
+						src = unparen(c.Args[0])
+					}
+				}
+				if sid, ok := src.(*ast.Ident); ok {
+					if sl := t.locals[t.p.info.Uses[sid]]; sl != nil && sl != lv && (sl.kind == "vmap" || sl.kind == "vlist") && sl.ownedMap() {
+						t.fresh++
+						kn := fmt.Sprintf("wbk%d", t.fresh)
+						pre = "let " + kn + " := " + k + " in "
+						k = kn
+						sl.origin = &aliasOrigin{parent: lv, how: "mapkey", key: kn}
+					}
+				}
+			}
+			return t.wrap(mark, pre+"let "+lv.name+" := set "+k+" "+v+" "+lv.name+" in "+t.writeBackStr(lv)+"\n  "+next())
 		}
 		if !ok || lv.kind != "vmap" || !lv.ownedMap() {
 			t.unsupported(x, "element assignment on something other than a map made by this function")
@@ -4782,6 +4916,26 @@ func (t *fnTr) isIndexOnlyLoop(init *ast.AssignStmt, cond *ast.BinaryExpr, post 
 		}
 		return true
 	})
+	// the index may only be used as xs[i]
+	nUse, nIdx := 0, 0
+	ast.Inspect(body, func(n ast.Node) bool {
+		switch y := n.(type) {
+		case *ast.Ident:
+			if t.p.info.Uses[y] == iObj {
+				nUse++
+			}
+		case *ast.IndexExpr:
+			if xi, ok := y.X.(*ast.Ident); ok && t.p.info.Uses[xi] == xsObj {
+				if ii, ok := y.Index.(*ast.Ident); ok && t.p.info.Uses[ii] == iObj {
+					nIdx++
+				}
+			}
+		}
+		return true
+	})
+	if nUse != nIdx {
+		return false
+	}
 	return okBody
 }
 
@@ -4905,7 +5059,7 @@ func constTable(p *pkgInfo, vs *ast.ValueSpec, i int) (string, bool) {
 
 // the functions translated into Pure_gen.v ("Recv.Method" for methods)
 var pureFuncs = []string{"cast", "escapeChars", "parsePath", "getSubKeyMap", "hasSubKeys", "Map.PathForKeyShortest", "valuesForKeyPath", "hasKey", "hasKeyPath", "getLeafNodes",
-	"Map.ValuesForKey", "Map.oldValuesForPath", "Map.ValuesForPath", "Map.LeafNodes", "getJson", "NewMapJsonReader", "NewMapJsonReaderRaw", "Map.Exists", "Map.ValueForPath", "Map.ValueForKey", "Map.LeafPaths", "Map.LeafValues", "valuesForArray", "Map.PathsForKey", "byteReader.ReadByte", "teeReader.ReadByte", "Maps.JsonString", "Maps.JsonStringIndent", "Maps.XmlString", "Maps.XmlStringIndent", "BeautifyXml", "Map.Copy", "Map.Json", "Map.Root", "NewMapXml", "NewMapXmlSeq", "lastKey", "xmlToMapParser", "xmlSeqToMapParser", "Map.JsonWriter", "Map.JsonWriterRaw", "Map.JsonIndentWriter", "Map.JsonIndentWriterRaw", "Map.XmlWriter", "Map.XmlIndentWriter", "MapSeq.XmlWriter", "MapSeq.XmlIndentWriter", "mapToXmlSeqIndent", "pretty.Indent", "pretty.Outdent", "elemListSeq.Less", "marshalMapToXmlIndent", "attrList.Less", "elemList.Less", "NewMapJson", "updateValueForKey", "updateValue", "updateValuesForKeyPath", "Map.UpdateValuesForPath", "prevValueByPath", "remove", "renameKey", "Map.Remove", "Map.RenameKey", "parentPath", "Map.SetValueForPath", "Map.Xml", "Map.XmlIndent", "MapSeq.Xml", "MapSeq.XmlIndent", "AnyXml", "AnyXmlIndent", "marshalJSON", "Map.JsonIndent", "Map.NewMap"}
+	"Map.ValuesForKey", "Map.oldValuesForPath", "Map.ValuesForPath", "Map.LeafNodes", "getJson", "NewMapJsonReader", "NewMapJsonReaderRaw", "Map.Exists", "Map.ValueForPath", "Map.ValueForKey", "Map.LeafPaths", "Map.LeafValues", "valuesForArray", "Map.PathsForKey", "byteReader.ReadByte", "teeReader.ReadByte", "Maps.JsonString", "Maps.JsonStringIndent", "Maps.XmlString", "Maps.XmlStringIndent", "BeautifyXml", "Map.Copy", "Map.Json", "Map.Root", "NewMapXml", "NewMapXmlSeq", "lastKey", "xmlToMapParser", "xmlSeqToMapParser", "Map.JsonWriter", "Map.JsonWriterRaw", "Map.JsonIndentWriter", "Map.JsonIndentWriterRaw", "Map.XmlWriter", "Map.XmlIndentWriter", "MapSeq.XmlWriter", "MapSeq.XmlIndentWriter", "mapToXmlSeqIndent", "pretty.Indent", "pretty.Outdent", "elemListSeq.Less", "marshalMapToXmlIndent", "attrList.Less", "elemList.Less", "NewMapJson", "updateValueForKey", "updateValue", "updateValuesForKeyPath", "Map.UpdateValuesForPath", "prevValueByPath", "remove", "renameKey", "Map.Remove", "Map.RenameKey", "parentPath", "Map.SetValueForPath", "Map.Xml", "Map.XmlIndent", "MapSeq.Xml", "MapSeq.XmlIndent", "AnyXml", "AnyXmlIndent", "marshalJSON", "Map.JsonIndent", "Map.NewMap", "addNewVal", "copyMapShallow"}
 
 // joinMode: functions translated in join mode (see branching): the statements after an if / switch are translated
 // once instead of into every branch.  The continuation-passing translation of the other functions is kept as it is
@@ -5057,6 +5211,7 @@ func genPure(p *pkgInfo) string {
 				externs: &externs, structs: structs, escaped: map[types.Object]bool{}}
 			t.sumJoin, t.curS, t.lenient = joinMode[qname], "unit", lenientFuncs[qname]
 			t.qname = qname
+			t.cursor = cursorFuncs[qname]
 			t.io, t.wb, t.aliases = ioInfo, writeBackFuncs[qname], aliasGraph(p, fn)
 			if fo, ok := p.info.Defs[fn.Name].(*types.Func); ok && t.wb && ioInfo.lens[fo] {
 				t.lensRet = true
